@@ -118,6 +118,35 @@ func buildCases(tier string) []caseT {
 			}
 		}
 	}
+	// signed sums of own, foreign and sub-query variables in every order: terms may cancel each other
+	terms := []string{"+@id@", "-@id@", "+@a:id@", "-@a:id@", "+@cport@", "-@sport@", "+@sport@", "+1", "-2"}
+	exprLen := 3
+	if tier == "thorough" {
+		exprLen = 4
+	}
+	var exprs []string
+	var genExpr func(cur string, n int)
+	genExpr = func(cur string, n int) {
+		if n > 0 {
+			exprs = append(exprs, strings.TrimPrefix(cur, "+"))
+		}
+		if n == exprLen {
+			return
+		}
+		for _, t := range terms {
+			genExpr(cur+t, n+1)
+		}
+	}
+	genExpr("", 0)
+	for _, key := range []string{"id", "cport", "port", "sbytes"} {
+		for _, e := range exprs {
+			st(key + ":" + e)
+			st(key + ":" + e + ":")
+		}
+	}
+	for _, e := range exprs[:min(len(exprs), 200)] {
+		st("ftime:" + strings.NewReplacer("@id@", "@ftime@", "@a:id@", "@a:ltime@", "@cport@", "@ltime@", "@sport@", "@a:ftime@", "+1", "+1h", "-2", "-2m").Replace(e))
+	}
 	for k := 1; k <= 6; k++ {
 		for m := 1; m <= 6; m++ {
 			st(fmt.Sprintf("ftime:%s:%s", strings.Repeat("+@ltime@", k), strings.Repeat("-@ftime@", m)))
